@@ -56,7 +56,28 @@ fn gen(seed: u64, idx: u64, _tier: Tier) -> Plan {
     }
     if scenario == "c20.failing_startup" {
         // configurations that make start-up fail in different ways, with the seed present
-        match rng.below(19) {
+        match rng.below(23) {
+            19..=22 => {
+                // a hand-written file with a slip of the pen on or next to the seed line that YAML
+                // reports as a syntax error (or reads as something other than a string)
+                let seed = s.seed_hex.clone();
+                let slip = match rng.below(10) {
+                    0 => format!(" seed: {}", seed),
+                    1 => format!("seed: `{}`", seed),
+                    2 => format!("seed: \"{}", seed),
+                    3 => format!("seed: {}\n\tbatch_size: 8", seed),
+                    4 => format!("seed: {}:", seed),
+                    5 => format!("\tseed: {}", seed),
+                    6 => format!("seed: {{{}", seed),
+                    7 => format!("seed: [{}", seed),
+                    8 => format!("seed: {}\nseed: {}", seed, seed),
+                    _ => format!("seed: '{}", seed),
+                };
+                let mut lines = vec!["interface: 127.0.0.1".to_string(), format!("port: {}", s.port), "batch_size: 8".to_string()];
+                lines.insert(rng.below(lines.len() as u64 + 1) as usize, slip);
+                s.source = ConfigSource::File;
+                s.raw_text = Some(lines.join("\n") + "\n");
+            }
             16 | 17 | 18 => {
                 // a hand-written file: keys in any order, and one string-valued setting given a
                 // value YAML does not read as a string (blank, a number, a float, a boolean, a list)
